@@ -358,11 +358,13 @@ func (f *Flow) normCond(e ast.Expr, depth int) ast.Expr {
 					switch y := n.(type) {
 					case *ast.CallExpr:
 						if tv, ok := f.Info.Types[y.Fun]; !(ok && (tv.IsType() || tv.IsBuiltin())) {
-							stable = false
+							if f.rawBetween(def.Pos(), n.Pos(), x.Pos()) {
+								stable = false
+							}
 						}
 					case *ast.AssignStmt:
 						for _, l := range y.Lhs {
-							if fieldOf(f.Info, l) != nil {
+							if fieldOf(f.Info, l) != nil && f.rawBetween(def.Pos(), n.Pos(), x.Pos()) {
 								stable = false
 							}
 						}
@@ -1662,4 +1664,56 @@ func (f *Flow) KnownNonNil(v types.Object) bool {
 		}
 	}
 	return false
+}
+
+
+// rawBetween: in the control-flow graph (conditions ignored) the node at mid lies on a path from the node at from to
+// the node at to that does not pass `from` again (a call in the other arm of an if/else does not lie between a
+// definition and its use). Unlocated positions count as "between".
+func (f *Flow) rawBetween(from, mid, to token.Pos) bool {
+	pf, ok1 := f.PtOf(from)
+	pm, ok2 := f.PtOf(mid)
+	pt, ok3 := f.PtOf(to)
+	if !ok1 || !ok2 || !ok3 {
+		return true
+	}
+	reach := func(a, b Pt, stop Pt) bool {
+		type k struct {
+			b *cfg.Block
+			i int
+		}
+		seen := map[k]bool{}
+		queue := []Pt{a}
+		first := true
+		for len(queue) > 0 {
+			p := queue[0]
+			queue = queue[1:]
+			if !first {
+				if p == b {
+					return true
+				}
+				if p == stop {
+					continue
+				}
+			}
+			first = false
+			if p.I < len(p.B.Nodes) {
+				n := Pt{p.B, p.I + 1}
+				if !seen[k{n.B, n.I}] {
+					seen[k{n.B, n.I}] = true
+					queue = append(queue, n)
+				}
+				continue
+			}
+			for _, s := range p.B.Succs {
+				n := Pt{s, 0}
+				if !seen[k{n.B, n.I}] {
+					seen[k{n.B, n.I}] = true
+					queue = append(queue, n)
+				}
+			}
+		}
+		return false
+	}
+	return reach(pf, pm, pf) && reach(pm, pt, pf)
 }
